@@ -22,6 +22,7 @@ import (
 	"os"
 	"strings"
 	"sync"
+	"time"
 )
 
 var (
@@ -50,22 +51,99 @@ func emitLine(format string, args ...any) {
 
 func hx(s string) string { return hex.EncodeToString([]byte(s)) }
 
-// freeAddrs asks the OS for n distinct free loopback ports (bind :0, read, release).
+// freeAddrs returns n distinct free loopback addresses.  Ports are NOT fixed.  Every harness process claims a
+// private slice of 44 ports below the kernel's ephemeral range (a lock file per slice, stale ones recognised by a
+// dead pid) and hands them out in rotation, each probed by binding.  Ports obtained from ":0" come from the
+// ephemeral range, which every other test process on the machine (and every outgoing connection) draws from
+// as well: a port reserved there and released is taken by someone else before, or while, the runner uses it -
+// and two harness processes drawing at random from one range collide with each other the same way.
 func freeAddrs(n int) []string {
-	var ls []net.Listener
+	portPool.once.Do(claimSlice)
 	var as []string
-	for i := 0; i < n; i++ {
+	portPool.mu.Lock()
+	defer portPool.mu.Unlock()
+	for tries := 0; len(as) < n && tries < 4*sliceSize && portPool.base > 0; tries++ {
+		p := portPool.base + portPool.next%sliceSize
+		portPool.next++
+		a := fmt.Sprintf("127.0.0.1:%d", p)
+		l, err := net.Listen("tcp", a)
+		if err != nil {
+			continue
+		}
+		l.Close()
+		as = append(as, a)
+	}
+	for len(as) < n { // no slice could be claimed: fall back to the OS
 		l, err := net.Listen("tcp", "127.0.0.1:0")
 		if err != nil {
 			panic(err)
 		}
-		ls = append(ls, l)
 		as = append(as, l.Addr().String())
-	}
-	for _, l := range ls {
 		l.Close()
 	}
 	return as
+}
+
+const (
+	sliceSize = 44
+	sliceBase = 10000
+	slices    = 500 // 10000 .. 31999, below the default ephemeral range 32768..60999
+	sliceDir  = "/tmp/verif-http-ports"
+)
+
+var portPool struct {
+	once sync.Once
+	mu   sync.Mutex
+	base int
+	next int
+	file string
+}
+
+func claimSlice() {
+	lo := 32768
+	if b, err := os.ReadFile("/proc/sys/net/ipv4/ip_local_port_range"); err == nil {
+		var a, z int
+		if _, err := fmt.Sscan(string(b), &a, &z); err == nil {
+			lo = a
+		}
+	}
+	os.MkdirAll(sliceDir, 0o777)
+	start := os.Getpid() % slices
+	for i := 0; i < slices; i++ {
+		k := (start + i) % slices
+		if sliceBase+(k+1)*sliceSize > lo {
+			continue
+		}
+		name := fmt.Sprintf("%s/slice-%03d", sliceDir, k)
+		for attempt := 0; attempt < 2; attempt++ {
+			f, err := os.OpenFile(name, os.O_CREATE|os.O_EXCL|os.O_WRONLY, 0o666)
+			if err == nil {
+				fmt.Fprintf(f, "%d\n", os.Getpid())
+				f.Close()
+				portPool.base, portPool.file = sliceBase+k*sliceSize, name
+				portPool.next = int(time.Now().UnixNano() % sliceSize)
+				return
+			}
+			// taken: by a live process?
+			b, rerr := os.ReadFile(name)
+			var pid int
+			if rerr == nil {
+				fmt.Sscan(string(b), &pid)
+			}
+			if pid > 0 {
+				if _, serr := os.Stat(fmt.Sprintf("/proc/%d", pid)); serr == nil {
+					break // alive: next slice
+				}
+			}
+			os.Remove(name) // stale (owner gone, or unreadable): try once more
+		}
+	}
+}
+
+func releaseSlice() {
+	if portPool.file != "" {
+		os.Remove(portPool.file)
+	}
 }
 
 type rt struct {
@@ -95,6 +173,7 @@ func (c cfgSpec) enc() string {
 func main() {
 	flag.Parse()
 	defer out.Flush()
+	defer releaseSlice()
 	switch *family {
 	case "equal":
 		runEqual()
